@@ -357,6 +357,21 @@ def determinism_guard(make, observe, prefix=()):
         raise HarnessError(f"nondeterministic harness: {oa!r} vs {ob!r}")
 
 
+def guard(ctx, pid, make, observe, case):
+    """Determinism guard that turns a divergence into a violation: every execution builds fresh agent
+    objects and the harness owns clocks, ids and scheduling, so if the same schedule gives different
+    point labels or observations the second time, the *agent* kept process-global mutable state from
+    the first execution (which is exactly how one thread's / tracepoint's data reaches another's)."""
+    try:
+        determinism_guard(make, observe)
+        return True
+    except HarnessError as e:
+        if 'hung' in str(e):
+            raise
+        ctx.violation(f'{pid}/state-leaks-between-executions', f'the same schedule run twice on fresh agent objects diverged: {e}', case)
+        return False
+
+
 def file_filter(spec):
     """spec: {path suffix: None | set of function names | {'fn': 'op'}} -> race filter on code objects."""
     items = list(spec.items())
